@@ -417,6 +417,9 @@ class HostileWorld(World):
                 end = rng.choice(["close", "rst", "rst"])     # protocol violation after the handshake, then an abortive close
             if commt and rng.random() < 0.3:
                 end = "stall"       # stays connected and silent far longer than COMMTIMEOUT: the server's own timeout must end it
+                if rng.random() < 0.4:
+                    # ... from the start, or inside its first message (with a full pool the thread server's accept loop reads it)
+                    msgs = [] if rng.random() < 0.3 else [dict(gen_msgspec(rng), base="connect", obj="tok", mut=[], trunc=rng.choice([0.05, 0.3, 0.6, 0.9]))]
             peers.append({"start": rng.choice([0, 0, 0.01, 0.1, 0.4]), "msgs": msgs, "gap": rng.choice([0, 0, 0.01, 0.2]),
                           "read": rng.random() < 0.5, "end": end})
         plan = {"servertype": servertype, "commtimeout": commt, "pool": [1, size], "witnesses": nwit,
@@ -492,7 +495,7 @@ class HostileWorld(World):
         if plan.get("cd_lines"):
             if _CD_CODES is None:
                 from .. import sched as S
-                _CD_CODES = S.code_objects(SV.Daemon._clientDisconnect, SV.Daemon._streamResponse, SV.Daemon._housekeeping)
+                _CD_CODES = S.code_closure(SV.Daemon._clientDisconnect, SV.Daemon._streamResponse, SV.Daemon._housekeeping)
             if not plan.get("ser_lines"):
                 return _CD_CODES
         if not plan.get("ser_lines"):
@@ -707,8 +710,16 @@ class HostileWorld(World):
                     #  no partial message pending may stay; the thread server's worker always sits in a timed read)
                     last = peer["msgs"][-1] if peer["msgs"] else None
                     partial = bool(last is not None and last.get("trunc") is not None and len(build_msg(last)) > 0)
-                    if ended is None and (plan["servertype"] == "thread" or partial) and had_handshake:
+                    # A peer that never got through the handshake (silent from the start, a partial first message, refused because
+                    # the pool is full) is read with the timeout by whoever reads it - a worker, the multiplex loop, or the
+                    # thread server's accept loop on its refusal path: it must be ended too, whatever the server type.
+                    # (multiplex: only when it sent nothing at all or stopped inside a message - a mutated connect message may
+                    #  well have been accepted, and then the connection is idle)
+                    nothing_sent = not any(len(build_msg(m)) > 0 for m in peer["msgs"])
+                    if ended is None and (plan["servertype"] == "thread" or partial or nothing_sent):
                         stalled.append((hi, sched.now - t0))
+                    if not had_handshake and (plan["servertype"] == "thread" or partial or nothing_sent):
+                        ctx.probe("stalling_peer_without_handshake")
                 sk.close()
 
         wts = [threading.Thread(target=witness, args=(i,), name="witness%d" % i) for i in range(plan["witnesses"])]
